@@ -281,11 +281,15 @@ pub fn use_briefly(b: &mut Built, ops: &mut Vec<&'static str>) -> std::result::R
         }
         Built::NetRaw(x) => {
             call!("send", x.send(&[1, 2, 3, 4]));
+            // an empty frame is a header-only chain: the header size must follow VERSION_1 there too (seed S132)
+            call!("send", x.send(&[]));
             let mut b = [0u8; 32];
             call!("fill_buffer_header", x.fill_buffer_header(&mut b));
         }
         Built::Net(x) => {
             let tb = x.new_tx_buffer(60);
+            call!("send", x.send(tb));
+            let tb = x.new_tx_buffer(0);
             call!("send", x.send(tb));
             ops.push("can_recv");
             let _ = x.can_recv();
